@@ -21,7 +21,20 @@ Definition c104 : N := 104. Definition c105 : N := 105. Definition c106 : N := 1
 Definition c112 : N := 112. Definition c113 : N := 113. Definition c114 : N := 114. Definition c115 : N := 115. Definition c116 : N := 116. Definition c117 : N := 117. Definition c118 : N := 118. Definition c119 : N := 119.
 Definition c120 : N := 120. Definition c121 : N := 121. Definition c122 : N := 122. Definition c123 : N := 123. Definition c124 : N := 124. Definition c125 : N := 125. Definition c126 : N := 126. Definition c127 : N := 127.
 
-Definition classes_eqb : list class -> list class -> bool := list_eqb class_eqb.
+(* What is compared how.
+   - what `read_into` / `enigma_dir::read` return: the property and Th 1 speak of the classes, members
+     and parameters a read yields, not of the IndexMap iteration order, so read results are compared
+     up to insertion order at every level (Quill.Mappings.equivb: both sides canonicalised);
+   - what `write_all` returns: the `#` lines (the header comment write_all puts in front of every
+     file's part) are no part of the property: the texts are compared line by line after dropping
+     the lines that start with `#` (the reader drops them too);
+   - `write_one` and the files of `enigma_dir::write` are compared byte for byte: the property says
+     the output is deterministic and sorted, and the model follows the code line by line
+     (correspondence proper). *)
+Definition classes_eqb (a b : list class) : bool := equivb (mkMappings [] None a) (mkMappings [] None b).
+Definition no_hash_lines (t : str) : list str :=
+  filter (fun l => negb (starts_with [cHASH] l)) (split_on cLF t).
+Definition text_eqb (a b : str) : bool := list_eqb str_eqb (no_hash_lines a) (no_hash_lines b).
 Definition file_eqb (a b : str * str) : bool := str_eqb (fst a) (fst b) && str_eqb (snd a) (snd b).
 Definition plain_leb (a b : str * str) : bool := is_le (str_cmp (fst a) (fst b)).
 
@@ -35,7 +48,7 @@ Inductive case :=
    ok      = the harness' own (independently written) decision whether the set satisfies the
              hypotheses of the round-trip theorems: must agree with enigma_okb
    wall    = enigma_file::write_all
-   back    = enigma_file::read_into (fresh mappings) on the text write_all returned, IndexMap order
+   back    = enigma_file::read_into (fresh mappings) on the text write_all returned
    ones    = enigma_file::write_one for some file names (existing and not)
    dirw    = enigma_dir::write into an empty directory: the files found afterwards
    dirback = enigma_dir::read of that directory *)
@@ -49,7 +62,7 @@ Definition check (c : case) : bool :=
   match c with
   | CSet M ok wall back ones dirw dirback =>
       Bool.eqb (enigma_okb M) ok
-      && res_eqb str_eqb (write_all M) wall
+      && res_eqb text_eqb (write_all M) wall
       && (match back, write_all M with
           | Some r, Ok t => res_eqb classes_eqb (read_all t) r
           | Some _, Err => false
